@@ -210,7 +210,7 @@ def live_templates():
 
 
 OPTION_POOL = [
-    ("timeline", ["1"]), ("depth", ["20", "40", "60", "120", "30", "1800", "-5", "0"]), ("leeway", ["16", "20", "30", "60"]),
+    ("timeline", ["1"]), ("depth", ["20", "40", "60", "120", "30", "1800", "-5", "0", "3600", "600"]), ("leeway", ["16", "20", "30", "60"]),
     ("mup", ["-1", "4", "8", "30", "0", "none"]), ("abr", ["0", "1"]), ("base", ["0", "1"]), ("acodec", ["mp4a", "ec-3", "any"]),
     ("events", ["ping", "scte35", "ping,scte35"]), ("patch", ["1"]),
     ("drm", ["all", "clearkey", "playready-pro", "marlin", "playready-moov", "playready-cenc,clearkey"]),
@@ -229,13 +229,13 @@ def e2e_cases(ctx, rng, count):
     names = live_templates()
     out = []
     for i in range(count):
-        stream = ["bbb", "tears", "syn1", "syn2", "syn3", "syn4", "syn5", "syn6", "syn7", "syn8", "syn9", "synbig", "syn10"][i % 13]
+        stream = ["bbb", "tears", "syn1", "syn2", "syn3", "syn4", "syn5", "syn6", "syn7", "syn8", "syn9", "synbig", "syn10", "bbbd"][i % 14]
         man = names[(i // 5) % len(names)]
         opts = {}
         for k, vals in OPTION_POOL:
             if rng.random() < _P_OPT.get(k, .3):
                 opts[k] = rng.choice(vals)
-        if stream != "bbb":       # only bbb has encrypted tracks (C16 covers the error case)
+        if stream not in ("bbb", "bbbd"):       # only bbb / bbbd have encrypted tracks (C16 covers the error case)
             for k in ("drm", "playready__version", "playready__piff"):
                 opts.pop(k, None)
         start = rng.choice(["epoch", "year", "month", "today", "now", "explicit"])
@@ -309,13 +309,25 @@ def e2e_cases(ctx, rng, count):
             opts["start"] = rng.choice(["1000-01-01T00:00:00Z", "0100-06-01T12:00:00Z", "1479-12-31T23:59:59Z"])
         else:
             opts["start"] = start
-        if stream == "syn9" and (i // 13) % 2 == 0:
+        if stream in ("bbb", "bbbd") and (i // 14) % 2 == 1 and i % 5 != 2:
+            # a time-shift buffer given in the URL that is DEEPER than what a media request falls back to (the
+            # server default, or the stream's stored default): every media type – the text track included – has
+            # to receive it through its own URLs
+            opts["depth"] = "3600" if stream == "bbb" else "600"
+            man = "hand_made.mpd"
+            if (i // 28) % 2 == 0:
+                opts["timeline"] = "1"
+            else:
+                opts.pop("timeline", None)
+            opts.pop("drift", None)
+            opts["start"] = (now - datetime.timedelta(seconds=3 * 3600 + 17)).strftime("%Y-%m-%dT%H:%M:%SZ")
+        if stream == "syn9" and (i // 14) % 2 == 0:
             # the stream's stored defaults decide start, depth, leeway and update period: none of them in the URL
             for k in ("start", "depth", "leeway", "mup"):
                 opts.pop(k, None)
             if now.year < 2023:
                 now = now.replace(year=2023)
-        if stream == "syn9" and (i // 13) % 2 == 1:
+        if stream == "syn9" and (i // 14) % 2 == 1:
             # the URL spells options with exactly the SERVER's default values although the stream's stored
             # defaults differ: an explicit value wins over the stream default on the manifest side, so it has
             # to reach the media side as well (it must not be dropped as "equal to the default")
@@ -323,7 +335,7 @@ def e2e_cases(ctx, rng, count):
             sd_ = OptionsRepository.get_default_options()
             opts["depth"] = str(int(sd_.timeShiftBufferDepth))
             opts["leeway"] = str(int(sd_.leeway))
-            opts["start"] = "year" if (i // 26) % 2 == 0 else "epoch"
+            opts["start"] = "year" if (i // 28) % 2 == 0 else "epoch"
             opts.pop("mup", None)
         # (`year` is the server default: the calendar cases leave it out of the URL half of the time)
         q = "&".join(f"{k}={v}" for k, v in opts.items() if not (k == "start" and v == "year" and i % 10 == 2))
@@ -349,7 +361,7 @@ def ch_e2e(ctx) -> Channel:
     default_leeway = int(OptionsRepository.get_default_options().leeway)
     lines, recs = [], []
     with appboot.Clock("2023-01-01T00:00:00Z") as clock:
-        for stream, url, now, opts in e2e_cases(ctx, rng, ctx.scale(104, 910)):
+        for stream, url, now, opts in e2e_cases(ctx, rng, ctx.scale(112, 924)):
             trk = segchecks.tracks(app, stream)
             mpd, status, fetches = segchecks.walk_manifest(app, client, clock, stream, url, now, rng,
                                                            per_rep=ctx.scale(5, 12), want_init=True)
@@ -387,7 +399,7 @@ def ch_e2e(ctx) -> Channel:
                 # 400 remains a disagreement
                 _, mod_, origin_, _num = mo.split()
                 stored_ = t.stored_tfdt[int(mod_) - 1] if t.has_tfdt else sum(t.durs[:int(mod_) - 1])
-                if segchecks.event_id_overflow(f.manifest, f.mode, f.value, f.adv_d, t,
+                if segchecks.event_id_overflow(f.url, f.mode, f.value, f.adv_d, t,
                                                tfdt=stored_ + int(origin_), dur=t.durs[int(mod_) - 1]):
                     pred = 400
             if pred != f.status:
@@ -425,7 +437,7 @@ def matches_finding(finding, failure):
             return False
         t = segchecks.tracks(segchecks.get_app(), f["stream"]).get(f.get("rep_id"))
         return bool(t and f.get("status") == 400 and
-                    segchecks.event_id_overflow(f["manifest"], f["mode"], f["value"], f.get("adv_d"), t))
+                    segchecks.event_id_overflow(f["url"], f["mode"], f["value"], f.get("adv_d"), t))
     if finding.get("class") != "leeway-too-small":
         return False
     f = failure.get("fetch")
@@ -440,9 +452,13 @@ def matches_finding(finding, failure):
     m = re.search(r"[?&]leeway=(\d+)", f["url"])
     lee_us = (int(m.group(1)) * 10 ** 6 if m else
               segchecks.stream_leeway_us(f["stream"], int(OptionsRepository.get_default_options().leeway)))
+    # the class concerns the OLD edge of the window only: a refusal further inside it is not this finding
+    off = f.get("win_off_us")
     if f["mode"] == "number" and f.get("listed_index") is None:
-        return not (2 * t.sd * 10 ** 6 + t.ts <= lee_us * t.ts)
-    return not ((max(t.durs) // 2 + 1) * 10 ** 6 + t.ts <= lee_us * t.ts and max(t.durs) // 2 <= t.sd)
+        near_edge = off is None or off * t.ts < (2 * t.sd + 1) * 10 ** 6
+        return near_edge and not (2 * t.sd * 10 ** 6 + t.ts <= lee_us * t.ts)
+    near_edge = off is None or off * t.ts < (max(t.durs) // 2 + 1) * 10 ** 6
+    return near_edge and not ((max(t.durs) // 2 + 1) * 10 ** 6 + t.ts <= lee_us * t.ts and max(t.durs) // 2 <= t.sd)
 
 
 def replay_finding(ctx, finding):
@@ -463,7 +479,7 @@ def replay_finding(ctx, finding):
             return any(f.before_window for f in bad)
         if finding.get("class") == "event-id-beyond-32-bits":
             trk = segchecks.tracks(app, w["stream"])
-            return any(f.status == 400 and segchecks.event_id_overflow(f.manifest, f.mode, f.value, f.adv_d, trk[f.rep_id])
+            return any(f.status == 400 and segchecks.event_id_overflow(f.url, f.mode, f.value, f.adv_d, trk[f.rep_id])
                        for f in bad if f.rep_id in trk)
         return bool(bad)
 
